@@ -39,6 +39,8 @@ pub struct LtServer {
     pub realm: String,
     pub counter: u32,
     pub last_nonce: String,
+    /// key currently held by the client (from the snapshot), set by the driver before building
+    pub client_key: Option<Vec<u8>>,
 }
 
 pub fn lt_absent() -> Value {
@@ -147,7 +149,7 @@ pub fn random_lt_spec(rng: &mut impl Rng, code: u16) -> Value {
 
 impl LtServer {
     pub fn new(_cfg: &Cfg) -> LtServer {
-        LtServer { realm: SERVER_REALM.to_string(), counter: 0, last_nonce: String::new() }
+        LtServer { realm: SERVER_REALM.to_string(), counter: 0, last_nonce: String::new(), client_key: None }
     }
 
     /// reference key for the integrity status fields `mi` / `sha` of descriptors (short-term
@@ -163,6 +165,18 @@ impl LtServer {
     /// Adds the long-term attributes of a server message and returns the key a RFC 8489 server
     /// would use for its integrity attribute. `request` = bytes of the request being answered.
     pub fn add_lt_attrs(&mut self, cfg: &Cfg, m: &MsgSpec, request: Option<&[u8]>, items: &mut Vec<Item>) -> Vec<u8> {
+        let key = self.add_lt_attrs_inner(cfg, m, request, items);
+        // spec -> code replays: the model's server keys non-challenge replies with the key the client
+        // currently holds
+        if m.lt["key"].as_str() == Some("client") && !(m.class == obs::CLASS_ERROR && m.code == 401) {
+            if let Some(k) = &self.client_key {
+                return k.clone();
+            }
+        }
+        key
+    }
+
+    fn add_lt_attrs_inner(&mut self, cfg: &Cfg, m: &MsgSpec, request: Option<&[u8]>, items: &mut Vec<Item>) -> Vec<u8> {
         // what the request being answered named
         let (mut realm, mut alg) = (SERVER_REALM.to_string(), 1u16);
         if let Some(rb) = request {
